@@ -1,8 +1,8 @@
 package main
 
 import (
-	"go/types"
 	"fmt"
+	"go/types"
 	"strings"
 
 	"golang.org/x/tools/go/ssa"
@@ -48,7 +48,7 @@ func c12Gate(c *Ctx) {
 	mainFn := c.Fn("cmd/rdpgw", "main")
 	// A: every reference to the bound HandleDownload is wrapped by OIDC.Authenticated
 	nRefs, wrappedAll := 0, true
-	eachInstr(mainFn, func(in ssa.Instruction) {
+	c.eachMainInstr(func(in ssa.Instruction) {
 		mc, ok := in.(*ssa.MakeClosure)
 		if !ok {
 			return
@@ -157,7 +157,14 @@ func sameLoc(a, b ssa.Value) bool {
 
 func c12HostPolicy(c *Ctx) {
 	rule := "C12/host-policy"
-	fn := c.Fn("cmd/rdpgw/web", "Handler.getHost")
+	root := c.Fn("cmd/rdpgw/web", "Handler.getHost")
+	c12HostPolicyIn(c, rule, root, 0)
+	c.Floor(rule, 5, "selectRandomHost + 5 accepting returns")
+}
+
+// c12HostPolicyIn analyses the accepting returns of getHost, and of the helper methods (on the same
+// handler) whose results it passes through unchanged.
+func c12HostPolicyIn(c *Ctx, rule string, fn *ssa.Function, depth int) {
 	key := shortFn(fn)
 	hP := fn.Params[0]
 	isHostsElem := func(v ssa.Value) bool {
@@ -177,26 +184,47 @@ func c12HostPolicy(c *Ctx) {
 		return ok && f.Name() == "hostSelection" && b == ssa.Value(hP)
 	}
 	gAny := GEq(isSel, func(v ssa.Value) bool { s, ok := constString(v); return ok && s == "any" })
-	// selectRandomHost returns an element of h.hosts
-	srh := c.Fn("cmd/rdpgw/web", "Handler.selectRandomHost")
-	srhOK := true
-	for _, r := range returnsOf(srh) {
-		a, ok := loadAddr(strip(r.Results[0]))
-		if !ok {
-			srhOK = false
+	if depth == 0 {
+		// selectRandomHost returns an element of h.hosts
+		srh := c.Fn("cmd/rdpgw/web", "Handler.selectRandomHost")
+		srhOK := true
+		for _, r := range returnsOf(srh) {
+			a, ok := loadAddr(strip(r.Results[0]))
+			if !ok {
+				srhOK = false
+				continue
+			}
+			ia, ok := a.(*ssa.IndexAddr)
+			if !ok {
+				srhOK = false
+				continue
+			}
+			b, f, ok := fieldLoad(strip(ia.X))
+			if !ok || f.Name() != "hosts" || b != ssa.Value(srh.Params[0]) {
+				srhOK = false
+			}
+		}
+		c.Check(srhOK, rule, shortFn(srh), srh.Pos(), "returns an element of h.hosts", "selectRandomHost can return something that is not a configured host")
+	}
+	// results handed through from a helper method on the same handler: analyse the helper instead
+	for _, r := range returnsOf(fn) {
+		if len(r.Results) != 2 {
 			continue
 		}
-		ia, ok := a.(*ssa.IndexAddr)
-		if !ok {
-			srhOK = false
+		e0, ok0 := strip(r.Results[0]).(*ssa.Extract)
+		e1, ok1 := strip(r.Results[1]).(*ssa.Extract)
+		if !ok0 || !ok1 || e0.Tuple != e1.Tuple || e0.Index != 0 || e1.Index != 1 {
 			continue
 		}
-		b, f, ok := fieldLoad(strip(ia.X))
-		if !ok || f.Name() != "hosts" || b != ssa.Value(srh.Params[0]) {
-			srhOK = false
+		call, ok := e0.Tuple.(*ssa.Call)
+		if !ok {
+			continue
+		}
+		h := call.Call.StaticCallee()
+		if h != nil && IsFirstParty(h) && h.Blocks != nil && depth < 1 && len(call.Call.Args) > 0 && call.Call.Args[0] == ssa.Value(hP) && h.Signature.Recv() != nil {
+			c12HostPolicyIn(c, rule, h, depth+1)
 		}
 	}
-	c.Check(srhOK, rule, shortFn(srh), srh.Pos(), "returns an element of h.hosts", "selectRandomHost can return something that is not a configured host")
 
 	exits := acceptingReturns(fn, 1, func(v ssa.Value) bool { return !isNil(v) })
 	for i, e := range exits {
@@ -229,7 +257,6 @@ func c12HostPolicy(c *Ctx) {
 			c.Bad(rule, k, e.Pos(), "a host that is not proved to be a configured entry is returned outside 'any' mode (%s)", why)
 		}
 	}
-	c.Floor(rule, 5, "selectRandomHost + 5 accepting returns")
 }
 
 func c12QueryToken(c *Ctx) {
@@ -309,36 +336,26 @@ func c12Bindings(c *Ctx) {
 	if gen == nil {
 		c.Missing("paaTokenGenerator call")
 	}
-	settings := map[string][]*ssa.Store{}
-	eachInstr(fn, func(in ssa.Instruction) {
-		s, ok := in.(*ssa.Store)
-		if !ok {
-			return
-		}
-		if b, f, ok := fieldOfAddr(s.Addr); ok {
-			if _, pf, ok2 := fieldOfAddr(b); ok2 && pf.Name() == "Settings" {
-				settings[f.Name()] = append(settings[f.Name()], s)
-			}
-		}
-	})
-	one := func(name string) *ssa.Store {
+	// stores into d.Settings made by the handler or by a helper it hands the builder to
+	settings := c.nestedFieldStores(fn, "Settings", nil)
+	one := func(name string) *fieldStore {
 		if len(settings[name]) != 1 {
 			c.Bad(rule, key+" "+name, fn.Pos(), "setting %s is stored %d times (expected once)", name, len(settings[name]))
 			return nil
 		}
-		return settings[name][0]
+		return &settings[name][0]
 	}
 	hostArg := gen.Call.Args[2]
 	if s := one("FullAddress"); s != nil {
-		c.Check(s.Val == hostArg, rule, key+" FullAddress", s.Pos(), "the file's full address is the very value handed to the token generator", "the file names a different host than the one bound into the token")
+		c.Check(s.val == hostArg, rule, key+" FullAddress", s.store.Pos(), "the file's full address is the very value handed to the token generator", "the file names a different host than the one bound into the token")
 	}
 	if s := one("GatewayAccessToken"); s != nil {
-		ok2, _ := mustPass(fn, s, GErrNil(resultOf(gen, 1)))
-		c.Check(s.Val == resultOf(gen, 0) && ok2, rule, key+" GatewayAccessToken", s.Pos(), "the token written is the generator's result, only when it succeeded", "the token written is not the (successful) generator result")
+		ok2, _ := mustPass(fn, s.at, GErrNil(resultOf(gen, 1)))
+		c.Check(s.val == resultOf(gen, 0) && ok2, rule, key+" GatewayAccessToken", s.store.Pos(), "the token written is the generator's result, only when it succeeded", "the token written is not the (successful) generator result")
 	}
 	if s := one("GatewayHostname"); s != nil {
-		root, path := fieldPath(s.Val)
-		c.Check(root == ssa.Value(fn.Params[0]) && len(path) == 2 && path[0] == "gatewayAddress" && path[1] == "Host", rule, key+" GatewayHostname", s.Pos(), "gateway host = configured gateway address", "the gateway named in the file is not h.gatewayAddress.Host")
+		root, path := fieldPathUp(s.store.Val, s.up)
+		c.Check(root == ssa.Value(fn.Params[0]) && len(path) == 2 && path[0] == "gatewayAddress" && path[1] == "Host", rule, key+" GatewayHostname", s.store.Pos(), "gateway host = configured gateway address", "the gateway named in the file is not h.gatewayAddress.Host")
 	}
 	// host = Replace(getHost result, placeholder, id.UserName(), 1), getHost error checked
 	hostOK, why := false, "the host is not the policy-selected host with the user placeholder substituted"
@@ -365,8 +382,16 @@ func c12Bindings(c *Ctx) {
 	// user
 	userOK := true
 	var uwhy string
-	for _, o := range origins(gen.Call.Args[1]) {
+	for _, o := range c.originsDeep(gen.Call.Args[1], 0) {
 		switch o.Kind {
+		case "param":
+			// inside a splitting helper: the name it was given must be the session's user name
+			if !c.allUp(o.Value, func(u ssa.Value) bool {
+				un, ok := strip(u).(*ssa.Call)
+				return ok && un.Call.IsInvoke() && un.Call.Method.Name() == "UserName"
+			}) {
+				userOK, uwhy = false, "user is derived from something other than UserName()"
+			}
 		case "call":
 			if calleeName(o.Call) == "strings.Cut" && o.Index == 0 {
 				sep, _ := constString(arg(o.Call, 1))
@@ -411,7 +436,7 @@ func c12Bindings(c *Ctx) {
 	// main wires the real generators
 	mainFn := c.Fn("cmd/rdpgw", "main")
 	wired := 0
-	eachInstr(mainFn, func(in ssa.Instruction) {
+	c.eachMainInstr(func(in ssa.Instruction) {
 		s, ok := in.(*ssa.Store)
 		if !ok {
 			return
@@ -472,20 +497,42 @@ func c12HandlerWiring(c *Ctx) {
 	rule := "C12/handler-wiring"
 	nh := c.Fn("cmd/rdpgw/web", "Config.NewHandler")
 	hT := c.NamedType("cmd/rdpgw/web", "Handler").Underlying().(*types.Struct)
+	// the handler object is allocated by NewHandler or by a helper it calls with the configuration
 	var lit *ssa.Alloc
-	eachInstr(nh, func(in ssa.Instruction) {
-		if al, ok := in.(*ssa.Alloc); ok && typeIs(al.Type(), webPkgPath, "Handler") {
-			lit = al
+	var litFn *ssa.Function
+	var cfg ssa.Value = nh.Params[0]
+	for _, sf := range scopeFuncs(nh, 1) {
+		if sf.Parent() != nil {
+			continue
 		}
-	})
+		sf := sf
+		eachInstr(sf, func(in ssa.Instruction) {
+			if al, ok := in.(*ssa.Alloc); ok && typeIs(al.Type(), webPkgPath, "Handler") {
+				lit, litFn = al, sf
+			}
+		})
+	}
 	if lit == nil {
 		c.Missing("Handler literal in NewHandler")
+	}
+	if litFn != nh {
+		// the helper's parameter that receives the configuration
+		cfg = nil
+		for _, ci := range callsIn(nh) {
+			if ci.Common().StaticCallee() == litFn {
+				for i, a := range ci.Common().Args {
+					if strip(a) == ssa.Value(nh.Params[0]) && i < len(litFn.Params) {
+						cfg = litFn.Params[i]
+					}
+				}
+			}
+		}
 	}
 	set := structFieldStores(lit)
 	// fields read by first-party code outside the constructor
 	read := map[string]bool{}
 	for _, f := range c.allFirstPartyFuncs() {
-		if f == nh {
+		if f == nh || f == litFn {
 			continue
 		}
 		eachInstr(f, func(in ssa.Instruction) {
@@ -518,7 +565,7 @@ func c12HandlerWiring(c *Ctx) {
 		how := ""
 		if good {
 			b, cf, ok := fieldLoad(strip(vs[0]))
-			good = ok && b == ssa.Value(nh.Params[0])
+			good = ok && cfg != nil && b == cfg
 			if ok {
 				how = cf.Name()
 			}
